@@ -2,6 +2,7 @@ import PfModel.DriverLib
 import PfModel.Model.MapSpecParse
 import PfModel.Model.MapSpecRegex
 import PfModel.Model.MapSpecAxes
+import PfModel.Model.MapSpecSpaced
 /-! Driver for C08 (`mapspec.parse`, `mapspec.ops`, `mapspec.consistent`, `mapspec.axes`).
     Run: `lake env lean --run Driver/C08.lean < requests.jsonl`. -/
 open Lean PF.Drv PF.MS
@@ -31,6 +32,27 @@ def getDict (j : Json) : R ShapeDict := asList (asPair asStr (asList asNat)) j
 def ascii (s : String) : Bool := s.toList.all fun c => c.toNat < 128
 def specAscii (a : ArraySpec) : Bool := ascii a.name && a.axes.all fun | none => true | some s => ascii s
 def msAscii (m : MapSpec) : Bool := m.inputs.all specAscii && m.outputs.all specAscii
+
+def getChars (j : Json) : R (List Char) := do return (← asStr j).toList
+
+def getSpAxis (j : Json) : R SpAxis := do
+  match ← asArr j with
+  | [l, ax, r] => return ⟨← getChars l, ← asOpt asStr ax, ← getChars r⟩
+  | _ => .error "axis triple expected"
+
+def getSpArr (j : Json) : R SpArr := do
+  match ← asArr j with
+  | [l, n, axes, r] => return ⟨← getChars l, ← asStr n, ← asList getSpAxis axes, ← getChars r⟩
+  | _ => .error "array quadruple expected"
+
+def getSpSpec (j : Json) : R SpSpec := do
+  return ⟨← listF getSpArr j "inputs", (← strF j "dl").toList, (← strF j "al").toList, (← strF j "ar").toList,
+          ← listF getSpArr j "outputs"⟩
+
+/-- `WF` of Lemmas/MapSpecParse.lean, decided: the constructor accepts the spec and every rank is ≥ 1 -/
+def wfB (m : MapSpec) : Bool :=
+  (match construct m.inputs m.outputs with | .ok _ => true | .error _ => false) &&
+  (m.inputs ++ m.outputs).all fun a => !a.axes.isEmpty
 
 def putKeys (l : List (String × List (Option Nat))) : Json := jList (jPair jStr (jList (jOpt jNat))) l
 
@@ -64,6 +86,11 @@ def doOp (m : MapSpec) (op : Json) : R Json := do
       match allOk ks with
       | some l => return jObj [("ok", jList putKeys l)]
       | none => return exJ putKeys (inputKeys m s 0)
+    | "to_string", [] => return jStr (toStr m)
+    | "rename_seq", [ρ, σ] =>
+      return exJ putMS (rename (← asList (asPair asStr asStr) ρ) m >>= rename (← asList (asPair asStr asStr) σ))
+    | "add_axes_seq", [ax, bx] =>
+      return exJ putMS (addAxes (← asList (asOpt asStr) ax) m >>= addAxes (← asList (asOpt asStr) bx))
     | "rename", [ρ] => return exJ putMS (rename (← asList (asPair asStr asStr) ρ) m)
     | "add_axes", [ax] => return exJ putMS (addAxes (← asList (asOpt asStr) ax) m)
     | n, _ => .error s!"unknown op {n}"
@@ -87,6 +114,19 @@ def handle (m : String) (a : Json) : R Json := do
       let ops ← listF pure a "ops"
       let rs ← ops.mapM (doOp m)
       return jObj [("construct", jObj [("ok", putMS m)]), ("ops", jArr rs)]
+  | "spaced" =>
+    -- a whitespace-decorated spec (Model/MapSpecSpaced.lean): its text, the spec it stands for, whether the hypotheses of
+    -- `C08_parse_spaced` hold, what `from_string` answers on the text, and the theorem re-evaluated on this case
+    let t ← getSpSpec (← fld a "t")
+    let m := t.erase
+    if !(msAscii m && ascii t.print) then return jObj [("skip", jStr "non-ascii")]
+    let hyp := t.ok && wfB m
+    let p := parse t.print
+    let thm := !hyp || (match p with | .ok m' => decide (m' = m) | .error _ => false)
+    return jObj [("text", jStr t.print), ("erase", putMS m), ("decoration_ok", jBool t.ok), ("wf", jBool (wfB m)),
+                 ("parse", exJ putMS p), ("theorem_holds", jBool thm),
+                 ("is_str", jBool (t.print == toStr m)),
+                 ("constructs", jBool (match construct m.inputs m.outputs with | .ok _ => true | .error _ => false))]
   | "findall" =>
     -- `re.findall(array_pattern, s)` by the regex engine; `scanner_agrees` re-checks `C08_regex_findall` on this text
     let s ← strF a "s"
